@@ -56,14 +56,22 @@ func (p *Parser) ParseRecoverOperation(request []byte, batch bool) (*model.Opera
 			return nil, errors.New("recovery and update commitments cannot be equal, re-using public keys is not allowed")
 		}
 
-		// the revealed recovery key must not come back as the next update key either
-		err = p.validateCommitment(signedData.RecoveryKey, schema.Delta.UpdateCommitment)
+		// the revealed recovery key must not come back as the next update key either, nor - in the form in which it
+		// has been transmitted - as the next recovery key
+		revealedKey := p.keyAsTransmitted(schema.SignedData, "recoveryKey", signedData.RecoveryKey)
+
+		err = p.validateCommitment(revealedKey, schema.Delta.UpdateCommitment)
 		if err != nil {
 			return nil, fmt.Errorf("calculate current commitment: %s", err.Error())
 		}
+
+		err = p.validateCommitment(revealedKey, signedData.RecoveryCommitment)
+		if err != nil {
+			return nil, fmt.Errorf("validate signed data for recovery: %s", err.Error())
+		}
 	}
 
-	err = hashing.IsValidModelMultihash(signedData.RecoveryKey, schema.RevealValue)
+	err = hashing.IsValidModelMultihash(p.keyAsTransmitted(schema.SignedData, "recoveryKey", signedData.RecoveryKey), schema.RevealValue)
 	if err != nil {
 		return nil, fmt.Errorf("canonicalized recovery public key hash doesn't match reveal value: %s", err.Error())
 	}
@@ -270,13 +278,47 @@ func contains(values []string, value string) bool {
 	return false
 }
 
-func (p *Parser) validateCommitment(jwk *jws.JWK, nextCommitment string) error {
+// keyAsTransmitted returns the key that an operation reveals as the JSON value it has in the signed data. Reveal
+// value and commitment are hashes of that value; the key model would add an empty 'y' to a key that has none (an
+// Ed25519 key, RFC 8037) and leave out members it does not know. The transmitted value is used only when it is read
+// as exactly the key the signature is verified with (a second member whose name differs in case binds to the same
+// field of the model); otherwise - as before - the model itself is hashed.
+func (p *Parser) keyAsTransmitted(compactJWS, member string, key *jws.JWK) interface{} {
+	signedData, err := p.parseSignedData(compactJWS)
+	if err != nil || key == nil {
+		return key
+	}
+
+	var members map[string]json.RawMessage
+	if err := json.Unmarshal(signedData.Payload, &members); err != nil {
+		return key
+	}
+
+	raw, ok := members[member]
+	if !ok {
+		return key
+	}
+
+	var transmitted jws.JWK
+	if err := json.Unmarshal(raw, &transmitted); err != nil || transmitted != *key {
+		return key
+	}
+
+	return []byte(raw)
+}
+
+func (p *Parser) validateCommitment(key interface{}, nextCommitment string) error {
 	code, err := hashing.GetMultihashCode(nextCommitment)
 	if err != nil {
 		return err
 	}
 
-	currentCommitment, err := commitment.GetCommitment(jwk, uint(code))
+	revealValue, err := hashing.CalculateModelMultihash(key, uint(code))
+	if err != nil {
+		return fmt.Errorf("calculate current commitment: %s", err.Error())
+	}
+
+	currentCommitment, err := commitment.GetCommitmentFromRevealValue(revealValue)
 	if err != nil {
 		return fmt.Errorf("calculate current commitment: %s", err.Error())
 	}
